@@ -121,11 +121,18 @@ class RCell:
         self.hash(level)
         return self._d[self._eff(level)]
 
-    def representation(self):
-        """standard representation (level infinity) used for the representation hash"""
-        return (bytes([self.d1(), self.d2()]) + self.data_bytes()
-                + b''.join(r.depth().to_bytes(2, 'big') for r in self.refs)
-                + b''.join(r.hash() for r in self.refs))
+    def representation(self, level=3):
+        """the byte string whose SHA-256 is hash(level).  At the lowest level it is the standard representation d1 d2 data depths hashes;
+        at a higher significant level the data is replaced by the hash of the level below and the children are taken at that level
+        (one level up below a Merkle cell) - crypto/vm/cells/DataCell.cpp.  Not defined for the stored levels of a pruned branch."""
+        l = self._eff(level)
+        top = self.mask.bit_length()
+        _need(not (self.type == PRUNED and l != top), 'a pruned branch has no representation below its own level')
+        body = self.data_bytes() if (l == 0 or self.type == PRUNED) else self.hash(l - 1)
+        shift = 1 if self.type in (MPROOF, MUPDATE) else 0
+        return (bytes([self.d1(l), self.d2()]) + body
+                + b''.join(r.depth(l + shift).to_bytes(2, 'big') for r in self.refs)
+                + b''.join(r.hash(l + shift) for r in self.refs))
 
     def __repr__(self):
         return f'RCell({"*" if self.special else ""}{len(self.bits)}b,{len(self.refs)}r,{self.hash().hex()[:8]})'
